@@ -219,3 +219,32 @@ def rule_ptr_recursion_base(ctx):
         r.bad(Finding("ptr-recursion-base", "_partial_trace_simple", "no base case for `every remaining subsystem is kept` before the subsystem to lose is chosen: a kept subsystem is traced out "
                                                                        "(e.g. dims [2, 1, 2], keep [0, 2])", where=where, operand="base"))
     return r
+
+
+def rule_ptr_keep_order(ctx):
+    r = RuleResult(
+        "ptr-keep-order",
+        "pkron / ikron place the factors of an operator on the subsystems in the order of `inds`; for partial trace to be the adjoint of "
+        "that embedding for index subsets *in any order*, the reduced state has to list the kept subsystems in the order of `keep`. The dense "
+        "route may therefore not consume `keep` only through order-insensitive operations (complement of the index set): somewhere the "
+        "order of `keep` has to reach the axes of the result (a transpose / argsort / axis list built from keep)",
+    )
+    f = ctx.prog.func(CORE, "_partial_trace_dense")
+    if f is None:
+        raise AnalysisError("ptr-keep-order: quimb.core._partial_trace_dense not found")
+    uses = [x for x in ast.walk(f.node) if isinstance(x, ast.Name) and x.id == "keep" and isinstance(x.ctx, ast.Load)]
+    ordered = False
+    for c in ast.walk(f.node):
+        if isinstance(c, ast.Call) and any(isinstance(y, ast.Name) and y.id == "keep" for a in list(c.args) + [k.value for k in c.keywords] for y in ast.walk(a)):
+            nm = (dotted(c.func) or "").split(".")[-1]
+            if nm in ("argsort", "transpose", "moveaxis", "permute", "take", "einsum"):
+                ordered = True
+    where = f"{f.module.relpath}:{f.lineno}"
+    if ordered:
+        r.ok("_partial_trace_dense", sample={"keep": "its order reaches the axes of the result"})
+    else:
+        consumers = sorted({(dotted(c.func) or "").split(".")[-1] for c in ast.walk(f.node) if isinstance(c, ast.Call)
+                            and any(isinstance(y, ast.Name) and y.id == "keep" for a in c.args for y in ast.walk(a))})
+        r.bad(Finding("ptr-keep-order", "_partial_trace_dense", f"`keep` is only consumed by {consumers} (order-insensitive): the reduced state always lists the kept subsystems in ascending order, "
+                                                                 "so Tr[pkron(A, dims, inds) rho] != Tr[A ptr(rho, dims, inds)] for an unsorted `inds`", where=where, operand="order"))
+    return r
